@@ -212,7 +212,8 @@ void PolarGrid::initializeLineSplitting(std::optional<double> splitting_radius)
             number_smoother_circles_ = 3;
 
         length_smoother_radial_    = nr() - number_smoother_circles_;
-        smoother_splitting_radius_ = radius(number_smoother_circles_);
+        smoother_splitting_radius_ =
+            number_smoother_circles_ < nr() ? radius(number_smoother_circles_) : radii_.back() + 1.0;
     }
 
     number_circular_smoother_nodes_ = number_smoother_circles_ * ntheta();
